@@ -23,7 +23,7 @@ pub fn info() -> CheckInfo {
         rule: "random x86-64 P-Code projects in the extractor's JSON format (2-6 functions built by an instruction-level assembler: prologue/epilogue, stack slots, globals via implicit loads, sub-register ops, flags, if/else, while/do-while loops, switch via BRANCHIND with jump-table hints, direct/indirect/recursive calls, no-return calls, stack canary, jumps into blocks of other functions, blocks listed in two functions, long dependent arithmetic chains, ~40 libc extern symbols (20 kernel symbols for modules) with calling conventions) plus a generated ELF (ET_EXEC or PIE ET_DYN with rodata/data+bss/text PT_LOADs, optional section table with .debug_*; kernel-module ET_REL variant) and one fixed hand-made minimal pair, run through the real CLI with default selection, all checks, two random --partial subsets (incl. CWE78 and the pointer-inference based checks) and 3/20 runs under valgrind memcheck. Oracle: exit status 0, nothing that looks like a panic on stderr, stdout parses as a JSON array, each element names a module listed by --module-versions (CWE125/CWE787 are documented variants of CWE119, CWE415 of CWE416) with that module's version and has correctly typed addresses/tids/symbols/other/description, array sorted by the independent comparator (name, version, addresses, tids, symbols, other, description; byte-wise lexicographic). non-trivial = the run printed >= 1 warning and the program has >= 1 loop; distinct = hash of (P-Code JSON, argument list)",
         assumptions: &[
             "the generated P-Code/ELF pairs are inside the extractor's output language: unique TIDs per term (except deliberately shared blocks, which Ghidra emits for overlapping function bodies), every register named in register_properties, libc extern symbols carry their real fixed-parameter signatures, blocks end in [BRANCH] | [CBRANCH,BRANCH] | [CALL] | [CALLIND] | [BRANCHIND] | [RETURN], functions stay below ~45 blocks",
-            "termination is judged as bounded progress: a watchdog of 60 s (valgrind: 45 s quick / 600 s thorough) per run; when it fires the CPU time of the process is read from /proc - at least 45 s of CPU time consumed (normal runs take about 10 ms) is reported as non-termination, anything less (a starved process on a loaded machine) and every valgrind timeout is inconclusive; inputs that would start after the tier's wall-clock budget are skipped and counted",
+            "termination is judged as bounded progress: a watchdog of 60 s (valgrind: 45 s quick / 600 s thorough) per run; when it fires the CPU time of the process is read from /proc - at least 20 s of CPU time consumed (normal runs take about 10 ms) is reported as non-termination, anything less (a starved process on a loaded machine) and every valgrind timeout is inconclusive; inputs that would start after the tier's wall-clock budget are skipped and counted",
             "the CLI binary in <harness>/target-cli/release is the one run_check.sh builds from the tree under test",
         ],
         run,
@@ -2492,10 +2492,10 @@ fn proc_cpu_ms(pid: u32) -> Option<u64> {
 }
 
 /// A run stopped by the watchdog counts as non-termination (and not as a slow machine) when the process itself had
-/// been computing for at least three quarters of its wall-clock budget: 45 s of CPU time for inputs whose normal run
-/// takes some ten milliseconds (450 s under valgrind).
+/// been computing for at least a third of its wall-clock budget: 20 s of CPU time for inputs whose normal run
+/// takes some ten milliseconds.
 pub fn hang_by_cpu_time(out: &CliOut) -> bool {
-    out.timed_out && matches!(out.cpu_ms_at_timeout, Some(c) if c * 4 >= out.timeout_ms * 3)
+    out.timed_out && matches!(out.cpu_ms_at_timeout, Some(c) if c * 3 >= out.timeout_ms)
 }
 
 pub fn run_cli(env: &CliEnv, files: &InputFiles, extra: &[String], opts: &RunOpts) -> CliOut {
